@@ -108,6 +108,7 @@ func emitFacts(o *out) {
 	}
 	emitShFacts(o)
 	emitDepsFacts(o)
+	emitInvokeFacts(o)
 }
 
 var impRx = regexp.MustCompile(`(?m)^\t(?:(\w+) )?"([^"{]+)"$`)
